@@ -209,6 +209,8 @@ class Model:
                 s.clear(); return "void"
             if f == "min":
                 return min(s) if s else "null"
+            if f == "nearest":      # some element of the table as it is at that moment (null iff empty)
+                return "ANY|" + "|".join(sorted(set(s.values()))) if s else "null"
         return "unsupported"
 
     def final(self):
@@ -266,7 +268,8 @@ def linearizable(kind, init, opt, progs, opres, final):
                 if any(opres[(u, j)][1] < inv for u in range(len(progs)) for j in range(pos[u], n[u]) if (u, j) != (t, i)):
                     continue
             m2 = model.copy()
-            if m2.apply(progs[t][i]) != opres[(t, i)][2]:
+            exp = m2.apply(progs[t][i])
+            if (opres[(t, i)][2] not in exp[4:].split("|")) if exp.startswith("ANY|") else (exp != opres[(t, i)][2]):
                 continue
             pos2 = list(pos); pos2[t] += 1
             if rec(m2, pos2):
@@ -369,6 +372,28 @@ FIXED = [
     "listtbl opt=unique init=1 t0=putint:0:5 t1=remove:0,getint:0",
     "treetbl init=1 t0=putstrf:0:5,getstr:0 t1=putstr:0:6,getstr:0",
     "treetbl init=2 t0=putstrf:1:5 t1=remove:1,getstr:1",
+    # copy-after-unlock: a copying get of an element of a few hundred bytes against remove / pop / clear / replace of
+    # the SAME element (enumerated on the ASan build: a copy taken after the unlock reads freed memory)
+    "list init=2 big=1 t0=getat:0 t1=popfirst",
+    "list init=2 big=1 t0=getat:1 t1=removeat:1",
+    "list init=2 big=1 t0=getat:0 t1=clear",
+    "list init=1 big=1 t0=getat:0,getat:0 t1=popfirst,addfirst:5",
+    "queue init=1 big=1 t0=getstr t1=pop",
+    "queue init=2 big=1 t0=getstr t1=clear",
+    "stack init=1 big=1 t0=getstr t1=pop",
+    "hashtbl init=2 range=1 big=1 t0=get:0 t1=remove:0",
+    "hashtbl init=2 range=1 big=1 t0=get:0 t1=put:0:9",
+    "hashtbl init=2 range=3 big=1 t0=get:1 t1=clear",
+    "listtbl init=2 big=1 t0=get:0 t1=remove:0",
+    "listtbl opt=unique init=2 big=1 t0=get:0 t1=put:0:9",
+    "listtbl init=2 big=1 t0=get:1 t1=clear",
+    "treetbl init=3 big=1 t0=get:1 t1=remove:1",
+    "treetbl init=3 big=1 t0=get:1 t1=put:1:9",
+    "treetbl init=3 big=1 t0=get:0 t1=clear",
+    "treetbl init=3 big=1 t0=nearest:1 t1=remove:1",
+    "treetbl init=3 big=1 t0=nearest:1 t1=put:1:9",
+    "treetbl init=2 big=1 t0=nearest:0 t1=clear",
+    "treetbl init=3 big=1 t0=nearest:1,nearest:2 t1=remove:1,remove:2",
     "queue init=0 t0=push:1,pop t1=push:2,pop",
     "queue init=1 t0=pop t1=pop t2=push:3",
     "stack init=0 t0=push:1,pop t1=push:2,pop",
@@ -475,6 +500,10 @@ class TheCheck(Check):
         try:
             impl_dir = vlib.build_impl("plain")
             self.hbin = vlib.build_harness(self.harness, impl_dir, "plain", self.wraps)
+            # the same harness on the ASan+UBSan build of the library: used for the `big=1` programs, where a
+            # copy made from freed memory is a sanitizer abort (the baton scheduler works on both builds; the
+            # bulk of the enumeration stays on the plain build, which is about three times faster)
+            self.hbin_asan = vlib.build_harness(self.harness, vlib.build_impl("asan"), "asan", self.wraps)
         except vlib.BuildError as e:
             self.violation("build", "build-failure", str(e)[:2000], {"error": str(e)[:4000]})
             return self.decide()
@@ -498,7 +527,8 @@ class TheCheck(Check):
             batch = pending[:max(1, min(len(pending), cap - count))]
             pending = pending[len(batch):]
             text = "".join("%s sched=%s\n" % (program, ".".join(map(str, p)) if p else "-") for p in batch)
-            out, rc, err = vlib.run_proc([self.hbin], text, timeout=300)
+            hbin = self.hbin_asan if (" big=1" in program and getattr(self, "hbin_asan", None)) else self.hbin
+            out, rc, err = vlib.run_proc([hbin], text, timeout=300)
             if rc != 0 or len(out) != len(batch):
                 i = len(out)
                 return count, True, ("crash", "harness died (rc=%d) on `%s sched=%s`: %s" % (
@@ -716,6 +746,8 @@ class TheCheck(Check):
                 bad |= bool(j)
             return 1 if bad else 0
         hbin = vlib.build_harness(self.harness, impl_dir, "plain", self.wraps)
+        if any(" big=1" in o for o in ops):
+            hbin = vlib.build_harness(self.harness, vlib.build_impl("asan"), "asan", self.wraps)
         ops = [o for o in ops if "free=1" not in o]
         out, rc, err = vlib.run_proc([hbin], "\n".join(ops) + "\n")
         bad = rc != 0
